@@ -172,6 +172,34 @@ def enum_shapes(n, memo={}):
     return out
 
 
+
+def enum_grammar(n, leaves, unary, binary, memo):
+    """all scripts of exactly n nodes; unary/binary are functions child(ren) -> node"""
+    if n in memo:
+        return memo[n]
+    out = []
+    if n == 1:
+        out = list(leaves)
+    else:
+        for a in enum_grammar(n - 1, leaves, unary, binary, memo):
+            out += [u(a) for u in unary]
+        for i in range(1, n - 1):
+            for a in enum_grammar(i, leaves, unary, binary, memo):
+                for b in enum_grammar(n - 1 - i, leaves, unary, binary, memo):
+                    out += [f(a, b) for f in binary]
+    memo[n] = out
+    return out
+
+
+WIND_CORE = dict(leaves=[("mark", 0)],
+                 unary=[lambda a: ("wind", 0, a), lambda a: ("callcc", 1, a), lambda a: ("throw", 1, 2, a)],
+                 binary=[lambda a, b: ("seq", a, b)])
+DYN_CORE = dict(leaves=[("pref", 0), ("const", 1)],
+                unary=[lambda a: ("callcc", 1, a), lambda a: ("throw", 1, 1, a), lambda a: ("raisec", a), lambda a: ("wind", 0, a)],
+                binary=[lambda a, b: ("seq", a, b), lambda a, b: ("param", 0, a, b), lambda a, b: ("handler", 0, a, b),
+                        lambda a, b: ("guard", 2, 0, a, b)])
+
+
 def gen_random(rng, n, fr, wd=0):
     """seeded structured script of about n nodes; wd = dynamic-wind nesting so far (kept <= 4)"""
     if n <= 1:
@@ -237,6 +265,10 @@ def templates(rng):
         # guard whose clause does not match: re-raise re-enters the winds
         out.append(("guard", None, fr.tag(), ("const", 9),
                     w(("guard", 1, fr.tag(), leaf(), w(("seq", leaf(), ("raise", ("const", 2))))))))
+        # guard whose clause does not match a CONTINUABLE condition: the re-raise must stay continuable, the outer
+        # handler's value must come back to the raise point (through the winds, which are re-entered)
+        out.append(("handler", fr.tag(), ("const", 4),
+                    ("show", ("guard", 1, fr.tag(), leaf(), w(("add", ("const", 10), ("raisec", ("const", 2))))))))
         # stack contents: left operand captured with the continuation, re-entered twice
         out.append(("seq", ("show", ("add", fr.mark(), ("add", ("const", 3), ("callcc", 1, ("const", 1))))), ("throw", 1, 2, ("const", 2))))
     return out
@@ -257,16 +289,15 @@ def classify(model, impl):
     n = 0
     while n < len(m) and n < len(i) and m[n] == i[n]:
         n += 1
-    ev = m[n] if n < len(m) else (i[n] if n < len(i) else (0, 0))
-    k = ev[0]
-    if k in (1, 2):
+    ks = {e[0] for e in (m[n:n + 1] + i[n:n + 1])}
+    if ks & {1, 2}:
         return "wind-order"
-    if k == 3:
-        return "value"
-    if k in (5, 6, 7):
-        return "handler"
-    if k >= 10:
+    if any(k >= 10 for k in ks):
         return "param-value"
+    if ks & {5, 6, 7}:
+        return "handler"
+    if 3 in ks:
+        return "value"
     return "control-flow"
 
 
@@ -367,6 +398,67 @@ def travel_cases(ctx, exe, d):
                               shlex.quote("(import (scheme base) (scheme write) (scheme eval)) " + TRAVEL_PRELUDE.replace("\n", " ") + " (write %s)" % e), d, d, d))
     if exprs:
         ctx.sample(dict(kind="travel-to-point!", request=reqs[-2], spec=mo[-2], generated=mo[-1], impl=io[-1]))
+
+
+
+# ------------------------------------------------------------------------------------------------ escapes through C callbacks
+# Procedures called back from C code (sexp_apply from qsort.c, from the macro expander inside eval, from hash.c)
+# run in a nested VM loop on the C stack.  R7RS makes no difference: escaping from them by a continuation or by an
+# exception caught outside must simply continue after the guard / call/cc, once.
+CB_PROGRAMS = [
+    # (site, program, expected stdout)
+    ("scheme-callback-control",
+     "(import (scheme base) (scheme write)) (define (show x) (write x) (newline)) "
+     "(show (guard (x (#t (list (quote caught) x))) (map (lambda (a) (if (= a 2) (raise (quote boom)) a)) (list 1 2 3)))) (show (quote end))",
+     "(caught boom)\nend\n"),
+    ("sort-comparator-raise",
+     "(import (scheme base) (scheme write) (srfi 95)) (define (show x) (write x) (newline)) (define n 0) "
+     "(show (guard (x (#t (list (quote caught) x))) (sort (list 3 1 2 5 4) (lambda (a b) (set! n (+ n 1)) (if (= n 2) (raise (quote boom)) (< a b)))))) "
+     "(show (quote end))",
+     "(caught boom)\nend\n"),
+    ("sort-comparator-callcc",
+     "(import (scheme base) (scheme write) (srfi 95)) (define (show x) (write x) (newline)) (define n 0) "
+     "(show (call-with-current-continuation (lambda (k) (sort (list 3 1 2 5 4) (lambda (a b) (set! n (+ n 1)) (if (= n 2) (k (quote escaped)) (< a b))))))) "
+     "(show (quote end))",
+     "escaped\nend\n"),
+    ("macro-transformer-error-in-eval",
+     "(import (scheme base) (scheme write) (scheme eval)) (define (show x) (write x) (newline)) (define e (environment (quote (scheme base)))) "
+     "(show (guard (x (#t (quote caught))) (eval (quote cond) e))) (show (quote end))",
+     "caught\nend\n"),
+    ("hash-function-raise",
+     "(import (scheme base) (scheme write) (srfi 69)) (define (show x) (write x) (newline)) "
+     "(define ht (make-hash-table equal? (lambda (k . o) (if (eqv? k 2) (raise (quote boom)) 0)))) (hash-table-set! ht 1 1) "
+     "(show (guard (x (#t (list (quote caught) x))) (hash-table-set! ht 2 2) (quote stored))) (show (quote end))",
+     "(caught boom)\nend\n"),
+]
+
+
+def callback_escapes(ctx, d, exe=None):
+    import subprocess
+    nviol0 = len(ctx.violations)
+    for site, prog, want in CB_PROGRAMS:
+        try:
+            r = B.run_chibi(d, ["/dev/stdin"], input=prog, timeout=20)
+            got, rc = r.stdout, r.returncode
+        except subprocess.TimeoutExpired:
+            got, rc = "TIMEOUT", "timeout"
+        ctx.count(1, key=("cb", site), nontrivial=(site != "scheme-callback-control"))
+        ctx.cov["traces_validated_against_impl"] += 1
+        if got != want or rc != 0:
+            ctx.violation("c-callback-escape:" + site, input=prog, expected=dict(stdout=want, rc=0), observed=dict(stdout=got[-400:], rc=rc),
+                          replay="printf '%%s' %s | LD_LIBRARY_PATH=%s CHIBI_MODULE_PATH=%s/lib CHIBI_IGNORE_SYSTEM_PATH=1 %s/chibi-scheme /dev/stdin; echo rc=$?" % (
+                              shlex.quote(prog), d, d, d))
+    if exe is not None:
+        # the machine mirrors this behaviour (CCall / FCReturn / stale C frame, theorem c_callback_transparent_refuted):
+        # model and code must stay in step — if the code gets repaired the model has to follow
+        m = ctx.run_model(exe, ["runimpl 100 seq show callcc 1 ccall throw 1 1 const 5 mark 1",
+                                "run 100 seq show callcc 1 throw 1 1 const 5 mark 1"])
+        ctx.sample(dict(kind="c-callback model", mirrored=m[0], r7rs=m[1]))
+        model_stale = m[0].startswith("19 ")
+        code_stale = len(ctx.violations) > nviol0
+        if model_stale != code_stale:
+            ctx.broken("ccall-model-vs-code", "machine predicts %s for an escape out of a C callback but the binary %s" % (
+                "a stale C frame" if model_stale else "a clean run", "misbehaves" if code_stale else "runs cleanly"))
 
 
 # ------------------------------------------------------------------------------------------------ main
@@ -546,6 +638,7 @@ def run(ctx):
         return
     rng = ctx.rng
     travel_cases(ctx, exe, d)
+    callback_escapes(ctx, d, exe)
     cb = corpus_bodies()
     if cb:
         run_scripts(ctx, exe, d, cb, "corpus")
@@ -557,6 +650,16 @@ def run(ctx):
         s5 = enum_shapes(5)
         ex += [relabel(s) for s in rng.sample(s5, len(s5) // 3)]
     run_scripts(ctx, exe, d, ex, "exhaustive")
+    # two small grammars enumerated deeper: winds x call/cc x re-entry, and parameters x handlers x re-entry
+    m1, m2 = {}, {}
+    ex2 = []
+    for n in range(1, (8 if not ctx.thorough else 10)):
+        ex2 += [relabel(s) for s in enum_grammar(n, memo=m1, **WIND_CORE)]
+    run_scripts(ctx, exe, d, ex2, "exhaustive-wind-core")
+    ex3 = []
+    for n in range(1, (6 if not ctx.thorough else 7)):
+        ex3 += [relabel(s) for s in enum_grammar(n, memo=m2, **DYN_CORE)]
+    run_scripts(ctx, exe, d, ex3, "exhaustive-dyn-core")
     tp = []
     for _ in range(60 if not ctx.thorough else 1500):
         tp += templates(rng)
@@ -568,3 +671,28 @@ def run(ctx):
     ctx.assume("escapes from inside a before/after thunk are excluded (R7RS leaves them unspecified); thunks only push trace symbols")
     ctx.assume("threads x continuations, and the behaviour of an exception nobody handles at the REPL top level, are outside this check")
     ctx.trust("the Python printer of DSL scripts to Scheme text (props/C06.py: scheme()) and the OCaml parser of the same token list")
+
+
+def replay(ctx, data):
+    """./check C06 --replay evidence/replay/C06-n.json : re-run the failing cases of that file"""
+    from vlib import core
+    d = ctx.build("default")
+    exe = ctx.extract("C06")
+    sig = data.get("signature", "")
+    if exe is None:
+        return core.finish(ctx)
+    if sig.startswith("control-trace"):
+        bodies = []
+        for c in data.get("failing_cases", []):
+            s, _ = parse_tokens(c["input"].split())
+            bodies.append(s[1][2][3])           # strip the show/callcc 0/handler 99 wrapper
+        run_scripts(ctx, exe, d, bodies, "replay")
+    elif sig.startswith("travel-to-point"):
+        travel_cases(ctx, exe, d)
+    elif sig.startswith("c-callback-escape"):
+        callback_escapes(ctx, d, exe)
+    else:
+        from gen import c06_travel
+        c06_travel.regen(ctx)
+        ctx.coq_obligations("Properties_C06")
+    return core.finish(ctx)
